@@ -38,6 +38,8 @@ def eb (n : Node) : Nat := n.info.eb
 def childByField (n : Node) (f : String) : Option Node := n.children.find? fun c => c.info.field == some f
 /-- `child(0)` -/
 def child0 (n : Node) : Option Node := n.children.head?
+/-- the first child that is not a comment (deno.jsonc: comments may precede the root object) -/
+def firstValue (n : Node) : Option Node := n.children.find? fun c => c.kind != "comment"
 end Node
 
 namespace Cst
